@@ -152,6 +152,18 @@ package meta
 //@   callee (*bbolt.Bucket).Put
 //@   pureeffect
 //@   requires [no_mark_for_a_locked_target] targetNotLocked()
+// C09: a stored tombstone leaves a garbage mark for its target and for every child of the
+// target, whether or not their headers are (still, already) known to the metabase - an
+// object that arrives or is re-indexed later must find the mark.
+//@ ghost field garbageMarksPut(x int) int
+//@ callrule c09_tombstone_garbage_mark in handleObjectWithAssociation
+//@   property C09
+//@   callee (*bbolt.Bucket).Put
+//@   assigns garbageMarksPut
+//@   defines garbageMarksPut(0) == old(garbageMarksPut(0)) + 1
+//@ func handleObjectWithAssociation
+//@   property C09
+//@   loop 1 iteration [every_member_gets_a_garbage_mark] garbageMarksPut(0) == old(garbageMarksPut(0)) + 1
 //@ func handleObjectWithAssociation
 //@   property C07
 //@   ensures [lock_on_tombstoned_target_rejected] err == nil && typ == object.TypeLock ==> targetStatus() != statusTombstoned
@@ -175,6 +187,12 @@ package meta
 //@ func (*DB).InhumeContainer$1
 //@   property C06
 //@   ensures [removal_mark_written_whenever_the_removal_succeeds] err == nil ==> containerRemovalMarkWritten()
+
+// Marking a batch of objects as garbage reports success only after the whole batch was
+// handled (an object left unmarked by a "successful" removal stays listed and readable).
+//@ func markGarbageInContainer
+//@   property C06 C09
+//@   ensures [success_only_after_the_whole_batch] err == nil ==> !inloop(1)
 
 //@ ghost pred containerRemovalChecked() bool
 //@ ghost pred containerRemoved() bool
